@@ -34,7 +34,8 @@ def cases(rng, tier):
     n_f = 30 if tier == "quick" else 300
     n_p = 30 if tier == "quick" else 300
     for k in range(n_f):
-        m = fc.g_method(rng)
+        # every third method has 3-4 phases: with one or two, "initial phase first" fixes the whole order
+        m = fc.g_method(rng, n_phases=rng.choice([3, 4]) if k % 3 == 0 else None)
         if k % 5 == 0:
             # ids that only differ by leading zeros / in case are still different statements
             pass
